@@ -327,12 +327,32 @@ class Run:
         if admin_api and r.random() < 0.6 and self.toks.get("admin"):
             tok = r.choice(self.toks["admin"])
         e = {"ev": "req", "op": op, "caller": tok, "owner": owner, "db": db, "user": tu, "admin_api": admin_api}
-        pre = ("/admin" if admin_api else "") + "/db/%s/%s" % (seg(owner), seg(db))
         self.ops[op] = self.ops.get(op, 0) + 1
         if op == "login":
             u = r.choice(USERS + ["admin"])
             self.login(u, None if r.random() < 0.85 else "wrongpassword")
             return
+        # the random parameters of the request
+        qs = None
+        if op in ("db_add", "convert"):
+            e["kind"] = r.choice(KINDS)
+        elif op == "db_user_add":
+            e["role"] = r.choice(ROLES)
+        elif op in ("exec", "exec_mut"):
+            qs, kinds = self.batch()
+            e["batch"] = kinds
+        elif op == "clear":
+            e["resource"] = r.choice(RESOURCES)
+        elif op in ("copy", "rename"):
+            e["new_db"] = r.choice(self.names)
+            e["new_owner"] = r.choice(USERS) if admin_api else ""
+        self.send(e, qs)
+
+    def send(self, e, qs=None):
+        """issues the fully specified request e (caller = token) and records it with the status"""
+        srv = self.srv
+        op, tok, owner, db, tu, admin_api = e["op"], e["caller"], e["owner"], e["db"], e["user"], e["admin_api"]
+        pre = ("/admin" if admin_api else "") + "/db/%s/%s" % (seg(owner), seg(db))
         if op in ("logout", "logout_all", "logout_others"):
             q = None if op == "logout" else {"session": "all" if op == "logout_all" else "others"}
             s, _ = srv.call("POST", "/user/logout", tok, query=q)
@@ -345,14 +365,12 @@ class Run:
         elif op == "admin_logout_all":
             s, _ = srv.call("POST", "/admin/user/logout_all", tok)
         elif op == "db_add":
-            e["kind"] = r.choice(KINDS)
             s, _ = srv.call("POST", pre + "/add", tok, query={"db_type": e["kind"]})
         elif op == "db_delete":
             s, _ = srv.call("DELETE", pre + "/delete", tok)
         elif op == "db_remove":
             s, _ = srv.call("DELETE", pre + "/remove", tok)
         elif op == "db_user_add":
-            e["role"] = r.choice(ROLES)
             s, _ = srv.call("PUT", pre + "/user/%s/add" % seg(tu), tok, query={"db_role": e["role"]})
         elif op == "db_user_remove":
             s, _ = srv.call("DELETE", pre + "/user/%s/remove" % seg(tu), tok)
@@ -361,8 +379,6 @@ class Run:
         elif op == "db_list":
             s, _ = srv.call("GET", "/db/list", tok)
         elif op in ("exec", "exec_mut"):
-            qs, kinds = self.batch()
-            e["batch"] = kinds
             s, b = srv.call("POST", pre + "/" + op, tok, qs)
         elif op == "optimize":
             s, _ = srv.call("POST", pre + "/optimize", tok)
@@ -371,14 +387,10 @@ class Run:
         elif op in ("backup", "restore", "rollback"):
             s, _ = srv.call("POST", pre + "/" + op, tok)
         elif op == "clear":
-            e["resource"] = r.choice(RESOURCES)
             s, _ = srv.call("POST", pre + "/clear", tok, query={"resource": e["resource"]})
         elif op == "convert":
-            e["kind"] = r.choice(KINDS)
             s, _ = srv.call("POST", pre + "/convert", tok, query={"db_type": e["kind"]})
         elif op in ("copy", "rename"):
-            e["new_db"] = r.choice(self.names)
-            e["new_owner"] = r.choice(USERS) if admin_api else ""
             q = {"new_db": e["new_db"]}
             if admin_api:
                 q["new_owner"] = e["new_owner"]
@@ -410,9 +422,11 @@ class Run:
             self.n_ok += 1
         self.emit(e)
 
-    def run(self, steps):
+    def prefix(self):
+        """the common start of every run: Reset, the observer session, an admin session, the two users with one session each"""
         self.emit({"ev": "Reset", "profile": self.profile, "names": self.names})
-        self.toks["admin"] = []
+        self.toks = {"admin": []}
+        self.dead = []
         self.observer = self.login("admin")
         self.toks["admin"] = []          # the observer session is never handed to the random requests
         self.emit({"ev": "observer", "token": self.observer})
@@ -423,6 +437,79 @@ class Run:
                        "admin_api": False, "status": s})
             self.observe()
             self.login(u)
+
+    def wipe(self):
+        """back to an empty server between replayed histories (not part of any trace): every database deleted, the users
+        deleted, every session closed"""
+        s, b = self.srv.call("POST", "/user/login", None, {"username": "admin", "password": PW["admin"]})
+        a = json.loads(b) if s == 200 else ""
+        s, b = self.srv.call("GET", "/admin/db/list", a)
+        for d in (json.loads(b) if s == 200 else []):
+            self.srv.call("DELETE", "/admin/db/%s/%s/delete" % (seg(d["owner"]), seg(d["db"])), a)
+        s, b = self.srv.call("GET", "/admin/user/list", a)
+        for u in (json.loads(b) if s == 200 else []):
+            if u["username"] != "admin":
+                self.srv.call("DELETE", "/admin/user/%s/delete" % seg(u["username"]), a)
+        self.srv.call("POST", "/admin/user/logout_all", a)
+        self.srv.call("POST", "/user/logout", a, query={"session": "all"})
+
+    def wipe_dbs(self):
+        """deletes every database (not part of any trace); users and sessions stay"""
+        a = self.observer
+        s, b = self.srv.call("GET", "/admin/db/list", a)
+        for d in (json.loads(b) if s == 200 else []):
+            self.srv.call("DELETE", "/admin/db/%s/%s/delete" % (seg(d["owner"]), seg(d["db"])), a)
+
+    def prefix_again(self):
+        """start of a further run on the same server after wipe_dbs(): the users and the sessions of the first run are still
+        there; the run starts with Reset, the records of the logins that produced the live sessions, and a baseline
+        observation (ServerTrace takes an observation without pending request as the new state)"""
+        self.emit({"ev": "Reset", "profile": self.profile, "names": self.names})
+        self.emit({"ev": "observer", "token": self.observer})
+        self.observe()
+        for u, tl in self.toks.items():
+            for t in tl:
+                self.emit({"ev": "login", "user": u, "good_password": True, "status": 200, "token": t, "replayed_record": True})
+
+    def replay(self, reqs, first=True):
+        """one TLC-generated request history (MCServerExport): callers are user names; every user has one session.
+        Returns the number of requests whose outcome (performed / rejected) is what the model expected."""
+        if first:
+            self.prefix()
+        else:
+            self.prefix_again()
+        agree = 0
+        for m in reqs:
+            if not self.srv.alive():
+                self.emit({"ev": "Died", "msg": "the server process exited"})
+                return agree
+            c = m["caller"]
+            tok = self.toks[c][0] if self.toks.get(c) else "bogus-token"
+            e = {"ev": "req", "op": m["op"], "caller": tok, "owner": m["owner"], "db": m["db"], "user": m["user"],
+                 "admin_api": bool(m["admin_api"])}
+            qs = None
+            op = m["op"]
+            if op in ("db_add", "convert"):
+                e["kind"] = m["kind"]
+            elif op == "db_user_add":
+                e["role"] = m["role"]
+            elif op in ("exec", "exec_mut"):
+                e["batch"] = m["batch"]
+                qs = [q_insert(k[1]) if k[0] == "insert" else Q[k[0]] for k in m["batch"]]
+            elif op == "clear":
+                e["resource"] = m["resource"]
+            elif op in ("copy", "rename"):
+                e["new_db"] = m["new_db"]
+                e["new_owner"] = m["new_owner"]
+            self.ops[op] = self.ops.get(op, 0) + 1
+            self.send(e, qs)
+            if (200 <= e["status"] < 300) == bool(m.get("expect")):
+                agree += 1
+            self.observe()
+        return agree
+
+    def run(self, steps):
+        self.prefix()
         for _ in range(steps):
             if not self.srv.alive():
                 self.emit({"ev": "Died", "msg": "the server process exited"})
